@@ -25,7 +25,7 @@ From Perf Require Import Base.Bytes Base.Sx Base.B64 Base.SxF Base.DecSpec Base.
 From Perf Require Model.Atoi Model.Atof Model.Key Model.Projection Model.Sort Model.BenchTab
   Model.FilterEval Model.Reader.
 From Perf Require Import Model.Pipeline.
-From Perf Require Corr.RunC06 Corr.RunC07 Corr.RunC09.
+From Perf Require Corr.RunC06 Corr.RunC07 Corr.RunC09 Corr.StatC14.
 
 Definition named := list (bytes * bytes).
 
@@ -48,7 +48,11 @@ Record case := mkCase {
   k_tabs : list tab_obs;
   k_stats : list (bool * list b64 * b64);
   k_csv : list csv_tab;
-  k_bin_csv : bool; k_bin_text : bool }.
+  k_bin_csv : bool; k_bin_text : bool;
+  (* the statistics of the cells the model reconstructs, judged end to end (Corr/StatC14.v): per table every cell's
+     centre, interval, comparison, the delta and ratio strings the binary printed, the summary row and its warnings;
+     oracles by direct benchmath calls keyed by assumption and sample content *)
+  k_stat : list StatC14.stab; k_sosum : StatC14.sum_oracle; k_socmp : StatC14.cmp_oracle }.
 
 Definition as_named := as_list (as_pair as_b as_b).
 Definition as_cell (s : sx) : option cell_obs :=
@@ -84,7 +88,7 @@ Definition as_stat (s : sx) : option (bool * list b64 * b64) :=
 
 Definition decode (s : sx) : option case :=
   match s with
-  | SL [SZ 7; SL [SB f; SB t; SB r; SB c; SB i]; files; reok; retab; so; SZ status; which; syn; tabs; stats; csv; b1; b2] =>
+  | SL [SZ 7; SL [SB f; SB t; SB r; SB c; SB i]; files; reok; retab; so; SZ status; which; syn; tabs; stats; csv; b1; b2; stat; sosum; socmp] =>
       do files <- as_list (as_pair as_b as_b) files;
       do reok <- as_list (as_list (as_pair as_b as_bool)) reok;
       do retab <- as_list (as_triple as_b as_b as_bool) retab;
@@ -95,7 +99,9 @@ Definition decode (s : sx) : option case :=
       do stats <- as_list as_stat stats;
       do csv <- as_list as_csv csv;
       do b1 <- as_bool b1; do b2 <- as_bool b2;
-      Some (mkCase (mkFlags f t r c i) files (concat reok) retab so status which syn tabs stats csv b1 b2)
+      do stat <- as_list StatC14.as_stab stat;
+      do sosum <- StatC14.as_sum_oracle sosum; do socmp <- StatC14.as_cmp_oracle socmp;
+      Some (mkCase (mkFlags f t r c i) files (concat reok) retab so status which syn tabs stats csv b1 b2 stat sosum socmp)
   | _ => None
   end.
 
@@ -264,16 +270,22 @@ Definition corr_ok : bool :=
   | PErr e => err_matches e
   end.
 
-Definition prop_ok : bool :=
+(** [prop_ok]: as before, and the statistics of the very cells reconstructed from the texts: centre, interval,
+    comparison and delta against the first column's cell of the row, the summary row by the declarative rule
+    (Corr/StatC14.v over [tables_spec]). [relax]: the recorded deviation C14_geomean_inf_order admitted *)
+Definition judge (relax : bool) : bool :=
   k_bin_csv c && k_bin_text c &&
   match run_spec with
   | POk o => out_matches o (tables_spec o)
-  | PErr e => err_matches e
+             && StatC14.stats_ok relax (k_sosum c) (k_socmp c) (tables_spec o) (k_stat c)
+  | PErr e => err_matches e && match k_stat c with [] => true | _ => false end
   end.
+Definition prop_ok : bool := judge false.
+Definition known_ok : bool := judge true.
 End WithCase.
 
 Definition run_case (s : sx) : N :=
   match decode s with
-  | Some c => code_of (corr_ok c) (prop_ok c)
+  | Some c => code_of3 (corr_ok c) (prop_ok c) (known_ok c)
   | None => code_undecodable
   end.
